@@ -31,7 +31,7 @@ def run(tier):
                      overrides={"AltSharesScope": "Yes"}, workers=1, timeout=900, heap="6g")
     if "is false" not in mt.out:
         raise common.ToolError("EngineOps.tla: AltSharesScope is not caught\n" + mt.out[-1500:])
-    vecs3, st3 = engine.generate("scopes", 3 if tier == "quick" else 4, 16, wd)
+    vecs3, st3 = engine.generate("scopes", 3, 16, wd)        # (weight 4: more than 25 minutes of generation since opt and fmt3 joined the family)
     engine.replay(vd, vecs3, bdir, wd, PID, check_illformed=True)
     # a binder that carries the name of a builtin word (length), read directly and from nested blocks
     rw = engine.model_check(vd, "shadow", 3)
@@ -49,7 +49,7 @@ def run(tier):
     return vd.finish(rule="programs of family 'names' (let with 1-2 ids, (|A|..), [|A|..], ?(|A|..), blocks "
                      "bound to names and applied, closures, ALT/OR) up to weight 3; well-formed ones compared "
                      "with Zw!Den (environments), ill-formed ones (unbound / rebound names) must be rejected "
-                     "at compile time with the corresponding message; family 'shadow': binders named like the builtin word `length' (let, scope), read directly and through one or two levels of blocks (weight 4); family 'scopes': infix operators, ALT, OR, sub-expressions and captures whose operands bind and read the names A and B (weight 3; 4 in the thorough tier); family 'upvals': blocks with parameters ({|X| ..} apply) nested in blocks, the nested block capturing names bound by its enclosing block next to names that reach it through the enclosing block's environment, in every order of first use (weight 5); family 'blocks': nested blocks up to weight 5 capturing the up-values A (the input) and B at several depths, applied directly or through a name; tla/Engine.tla (op_lex_closure, op_apply with its private state buffer and rendezvous, op_upread transcribed in tla/EngineOps.tla) model-checked against Zw!Den on both families for every pull count and abandonment point, and the exact pull sequence of every legal program compared with the implementation", exhaustive=True, extra={"family": st, "blocks": st2, "scopes": st3, "shadow": st4, "upvals": st5})
+                     "at compile time with the corresponding message; family 'shadow': binders named like the builtin word `length' (let, scope), read directly and through one or two levels of blocks (weight 4); family 'scopes': infix operators, ALT, OR, sub-expressions and captures whose operands bind and read the names A and B (weight 3); family 'upvals': blocks with parameters ({|X| ..} apply) nested in blocks, the nested block capturing names bound by its enclosing block next to names that reach it through the enclosing block's environment, in every order of first use (weight 5); family 'blocks': nested blocks up to weight 5 capturing the up-values A (the input) and B at several depths, applied directly or through a name; tla/Engine.tla (op_lex_closure, op_apply with its private state buffer and rendezvous, op_upread transcribed in tla/EngineOps.tla) model-checked against Zw!Den on both families for every pull count and abandonment point, and the exact pull sequence of every legal program compared with the implementation", exhaustive=True, extra={"family": st, "blocks": st2, "scopes": st3, "shadow": st4, "upvals": st5})
 
 def replay(path):
     import c01
